@@ -175,6 +175,9 @@ def gen(seed, thorough=False):
         elif k < 0.905:
             plan.append({'site': 'channel', 'ident': lf, 'a': 'eintr',
                          'nth': rng.randint(1, 12)})
+            if seed % 3 == 0:
+                # ... or a transient read error of another kind: reported, then retried
+                plan[-1]['errno'] = ['EIO', 'EAGAIN', 'EBADF'][(seed // 3) % 3]
         elif k < 0.945:
             # the child closes fds 1 and 2 but stays alive (daemonised helper, non-daemon
             # thread): EOF on both pipes of a living process
